@@ -103,15 +103,15 @@ Proof.
   rewrite Nat.sub_0_r in *. auto.
 Qed.
 
-(* ---- arg_max picks a maximal entry (the last one) ---- *)
+(* ---- arg_max picks a maximal entry (the first one) ---- *)
 Lemma argmax_from_spec rest : forall pre bi b,
   (bi < length pre)%nat -> b = nth bi (pre ++ rest) 0 ->
   (forall j, (j < length pre)%nat -> nth j (pre ++ rest) 0 <= b) ->
-  (forall j, (bi < j < length pre)%nat -> nth j (pre ++ rest) 0 < b) ->
+  (forall j, (j < bi)%nat -> nth j (pre ++ rest) 0 < b) ->
   let k := argmax_from bi b (length pre) rest in
   (k < length (pre ++ rest))%nat /\
   (forall j, (j < length (pre ++ rest))%nat -> nth j (pre ++ rest) 0 <= nth k (pre ++ rest) 0) /\
-  (forall j, (k < j < length (pre ++ rest))%nat -> nth j (pre ++ rest) 0 < nth k (pre ++ rest) 0).
+  (forall j, (j < k)%nat -> nth j (pre ++ rest) 0 < nth k (pre ++ rest) 0).
 Proof.
   induction rest as [|x rest IH]; intros pre bi b Hbi Hb Hle Hlt; cbn [argmax_from].
   - rewrite app_nil_r in *. subst b. auto.
@@ -119,27 +119,26 @@ Proof.
     { rewrite app_nth2 by lia. rewrite Nat.sub_diag. reflexivity. }
     assert (Happ : pre ++ x :: rest = (pre ++ [x]) ++ rest) by (rewrite <- app_assoc; reflexivity).
     assert (Hlen : length (pre ++ [x]) = S (length pre)) by (rewrite app_length; cbn; lia).
-    destruct (b <=? x) eqn:E.
-    + apply N.leb_le in E.
+    destruct (b <? x) eqn:E.
+    + apply N.ltb_lt in E.
       specialize (IH (pre ++ [x]) (length pre) x). rewrite Hlen in IH. rewrite Happ.
       apply IH; [lia| rewrite <- Happ; auto | |].
       * intros j Hj. rewrite <- Happ. destruct (Nat.eq_dec j (length pre)) as [->|Hne]; [rewrite Hx; lia|].
         specialize (Hle j ltac:(lia)). lia.
-      * intros j Hj. lia.
-    + apply N.leb_gt in E.
+      * intros j Hj. rewrite <- Happ. specialize (Hle j Hj). lia.
+    + apply N.ltb_ge in E.
       specialize (IH (pre ++ [x]) bi b). rewrite Hlen in IH. rewrite Happ.
       apply IH; [lia| rewrite <- Happ; auto | |].
       * intros j Hj. rewrite <- Happ. destruct (Nat.eq_dec j (length pre)) as [->|Hne]; [rewrite Hx; lia|].
         apply Hle; lia.
-      * intros j Hj. rewrite <- Happ. destruct (Nat.eq_dec j (length pre)) as [->|Hne]; [rewrite Hx; lia|].
-        apply Hlt; lia.
+      * intros j Hj. rewrite <- Happ. apply Hlt; lia.
 Qed.
 
 Lemma argmax_row_spec (r : row) : r <> [] ->
   let k := argmax_row r in
   (k < length r)%nat /\
   (forall j, (j < length r)%nat -> wt r j <= wt r k) /\
-  (forall j, (k < j < length r)%nat -> wt r j < wt r k).
+  (forall j, (j < k)%nat -> wt r j < wt r k).
 Proof.
   destruct r as [|x rest]; [congruence|]. intros _. unfold argmax_row, wt.
   apply (argmax_from_spec rest [x] 0%nat x); cbn [length app nth]; try lia.
